@@ -190,12 +190,20 @@ func (bc BoundedComparator) Min(a, b frontend.Variable) frontend.Variable {
 }
 
 // cmpInField compares a and b in a finite field of the specified order.
+//
+// The constraints only see the difference a - b: a is bigger than b when a - b,
+// reduced in the field, is a positive number (at most (order-1)/2).
 func cmpInField(a, b, order *big.Int) int {
-	biggestPositiveNum := new(big.Int).Rsh(order, 1)
-	if a.Cmp(biggestPositiveNum)*b.Cmp(biggestPositiveNum) == -1 {
-		return -a.Cmp(b)
+	if a.Cmp(b) == 0 {
+		return 0
 	}
-	return a.Cmp(b)
+	biggestPositiveNum := new(big.Int).Rsh(order, 1)
+	diff := new(big.Int).Sub(a, b)
+	diff.Mod(diff, order)
+	if diff.Cmp(biggestPositiveNum) <= 0 {
+		return 1
+	}
+	return -1
 }
 
 // minOutputHint produces the output of [BoundedComparator.Min] as a hint.
